@@ -20,7 +20,7 @@ func init() {
 				{
 					Name: "name",
 					Type: "string|symbol",
-					Text: "The name of the new package being defined.",
+					Text: "The name of the new package being defined. A symbol is the name, any other form is evaluated.",
 				},
 				{Name: "&rest"},
 				{
@@ -55,7 +55,12 @@ type Defpackage struct {
 // Call the function with the arguments provided.
 func (f *Defpackage) Call(s *slip.Scope, args slip.List, depth int) (result slip.Object) {
 	slip.CheckArgCount(s, depth, f, args, 1, -1)
-	a0 := slip.EvalArg(s, args, 0, depth)
+	a0 := args[0]
+	if _, ok := a0.(slip.Symbol); !ok {
+		// As in Common Lisp a symbol is the name, it is not a variable. That
+		// is also what the load form of a package is made of.
+		a0 = slip.EvalArg(s, args, 0, depth)
+	}
 	name := slip.MustBeString(a0, "name")
 	if slip.FindPackage(name) != nil {
 		slip.ErrorPanic(s, depth, "Package %s already exists.", name)
